@@ -52,6 +52,15 @@ func genC13(rt *rapid.T) C13Case {
 			op.Fault = rapid.SampledFrom([]int{FServerError, FTimeoutLost, FTimeoutApplied, FNotFound}).Draw(rt, "trimFaultKind")
 		}
 	}
+	// ... and a fifth of the rest have somebody write a revision between two of the reconcile's calls (the history is
+	// listed by two queries per pass, several times per reconcile)
+	for i := range c.W.Ops {
+		if op := &c.W.Ops[i]; op.K == OpReconcile && op.FaultAt == 0 && op.InterAt == 0 && rapid.IntRange(0, 4).Draw(rt, "touchRev") == 0 {
+			op.InterAt = rapid.SampledFrom([]int{2, 4, 6, 8}).Draw(rt, "touchAt")
+			op.InterKind = OpTouchRev
+			op.InterA = rapid.IntRange(0, 20).Draw(rt, "touchWhich")
+		}
+	}
 	return c
 }
 
